@@ -158,6 +158,11 @@ func judgeEvents(r *Run, w *World, e *Engine) {
 					r.Check(x.Ext.State == "Started" || x.Ext.State == "LaunchError", "C15.extension-state", "extension %s never registered but its status line says %q", x.Ext.AgentName, x.Ext.State)
 					continue
 				}
+				if a.Step >= x.Step || r.heldDuring(a.Step, x.Step) {
+					// registered in the very step the lines were assembled in, or while the assembling goroutine was
+					// descheduled half-way through the agents: either snapshot is truthful
+					continue
+				}
 				r.Check(x.Ext.State != "Started" && x.Ext.State != "LaunchError", "C15.extension-state", "extension %s had registered at step %d but its status line at step %d says %q", x.Ext.AgentName, a.Step, x.Step, x.Ext.State)
 				subs := uniqSorted(a.Events)
 				gotSubs := uniqSorted(x.Ext.Subscriptions)
